@@ -44,13 +44,19 @@ A.__rank__ = 1
 D.__rank__ = None
 import typing
 L = typing.List[int]
+import abc
+class AB(abc.ABC): pass
+class V: pass
+AB.register(V)
+class VS(V): pass
 '''
 _ns = {}
 exec(SRC_CLASSES, _ns)
-CLS = {k: _ns[k] for k in "A B C D E X BX M AM L".split()}
+CLS = {k: _ns[k] for k in "A B C D E X BX M AM L AB V VS".split()}
 # AM: a subclass of A that also has the metaclass M (criteria are a conjunction); L: typing.List[int], not a class --
 # issubclass() raises TypeError for it, which the registry documents as "this registration does not match"
-RESOLVE_TARGETS = ["A", "B", "C", "D", "E", "X", "BX", "AM", "L"]
+# V is a *virtual* subclass of the abstract class AB (AB.register(V)), VS a real subclass of V
+RESOLVE_TARGETS = ["A", "B", "C", "D", "E", "X", "BX", "AM", "L", "V", "VS"]
 
 # registration menu: (classes, allow_subclasses, priority, attr, metaclass, detector-name)
 FULL_MENU = []
@@ -83,6 +89,7 @@ QUICK_MENU = [
     ((), True, 0, None, None, "det_rank"),        # a detector that raises TypeError for D
     ((), True, 0, "__origin__", None, None),      # matches only the non-class target L
     ((), True, 2, None, None, "det_lazy"),        # registers a converter for A while resolve(B) scans
+    (("AB",), True, 0, None, None, None),         # an abstract class: matches its virtual subclasses too
 ]
 MID_MENU = QUICK_MENU + [
     (("A",), True, 1, None, "M", None),
